@@ -84,8 +84,11 @@ PROPS = {
                 "compare the two real runs as per-row multisets",
     },
     "C01": {
-        "extra_imports": ["Gofasta.Lemmas.SamWalk"],
-        "extra_theorems": ["Gofasta.Lemmas.walk_cov", "Gofasta.Lemmas.walk_row", "Gofasta.Lemmas.covList_ge", "Gofasta.Lemmas.covList_lt"],
+        "extra_imports": ["Gofasta.Lemmas.SamWalk", "Gofasta.Lemmas.SamFlatten"],
+        "extra_theorems": ["Gofasta.Lemmas.walk_cov", "Gofasta.Lemmas.walk_row", "Gofasta.Lemmas.covList_ge", "Gofasta.Lemmas.covList_lt",
+                           "Gofasta.Lemmas.single_record_row", "Gofasta.Lemmas.swapNs_starRow", "Gofasta.Lemmas.swapGaps_starRow",
+                           "Gofasta.Lemmas.flatten_column", "Gofasta.Lemmas.seqFromBlock_starRow", "Gofasta.Lemmas.query_row",
+                           "Gofasta.Lemmas.toMultiAlign_total"],
         "streams": {"C01": (500, 10000)},
         "thorough_seeds": 3,
         "rule": "reference 10-120 nt; 1-6 queries of 1-3 records (disjoint or overlapping; agreeing or conflicting templates); CIGARs from a grammar over all nine "
